@@ -104,10 +104,10 @@ def build_harness():
         return p
 
 
-def regen_facts():
-    """rewrite lean/ShipVerif/Generated/{Facts,MiscFacts}.lean from /repo; returns (changed files, error)"""
+def regen_facts(sites=False):
+    """rewrite lean/ShipVerif/Generated/*.lean from /repo; returns (changed files, error)"""
     build_tools()
-    p = run([EXTRACT, "-repo", REPO, "-out", os.path.join(LEAN, "ShipVerif", "Generated")], cwd=VERIF)
+    p = run([EXTRACT, "-repo", REPO, "-out", os.path.join(LEAN, "ShipVerif", "Generated")] + (["-sites"] if sites else []), cwd=VERIF)
     if p.returncode != 0:
         return [], p.stdout
     changed = [l.split()[1] for l in (p.stdout or "").splitlines() if l.startswith("changed ")]
